@@ -96,3 +96,25 @@ func Run(now time.Time, getter verify.HTTPSGetter, files map[string][]byte, args
 	res.Files = io.Files
 	return res
 }
+
+// RunOS executes the CLI like Run but over the real file system (the repository's own OSIO): paths in
+// args are real paths. Used where creating, truncating and replacing files is what is observed.
+func RunOS(now time.Time, getter verify.HTTPSGetter, args ...string) (res Result) {
+	ctx := rpcmd.VerifContextWithBackend(context.Background(), &rpcmd.Backend{Now: now, Getter: getter, IO: rpcmd.OSIO{}})
+	root := rpcmd.MakeRoot(ctx)
+	root.SetArgs(args)
+	root.SetOut(&bytes.Buffer{})
+	root.SetErr(&bytes.Buffer{})
+	root.SilenceUsage = true
+	root.SilenceErrors = true
+	func() {
+		defer func() {
+			if x := recover(); x != nil {
+				res.Panicked = x
+				res.Err = fmt.Errorf("panic: %v", x)
+			}
+		}()
+		res.Err = root.Execute()
+	}()
+	return res
+}
